@@ -1011,6 +1011,8 @@ def seen_before_refusals(repo: Repo, m: ModuleInfo, res: CheckResult) -> None:
                 it = norm(loop.iter)
                 if not ("cases" in it or "__members__" in it):
                     continue
+                if isinstance(loop.iter, ast.Call) and norm(loop.iter.func) in ("set", "frozenset", "dict.fromkeys", "unique", "OrderedDict.fromkeys"):
+                    continue      # the sequence is de-duplicated first: a member meets itself no more
                 lvars = {t.id for t in ast.walk(loop.target) if isinstance(t, ast.Name)}
                 # containers filled inside this loop
                 filled = set()
